@@ -85,6 +85,7 @@ func expMap(name, key string) int64 {
 var c25TB testing.TB
 
 func runC25(c c25Case) *vstat.Failure {
+	vstat.Begin(c)
 	return vstat.Catch(func() *vstat.Failure { return runC25x(c) })
 }
 
